@@ -137,6 +137,8 @@ func c20Unmarshal(data []byte) (id, mbeh int, set bool, err error) {
 	case 8: // nothing set, and a non-nil error interface holding a nil pointer
 		var e *c20NilSafe
 		return 0, 0, false, e
+	case 9: // success without touching the receiver (an empty or null document)
+		return 0, 0, false, nil
 	}
 	panic(fmt.Sprintf("kaboom %d", id))
 }
@@ -196,6 +198,44 @@ func (s *SE) UnmarshalText(data []byte) error   { return s.unmarshal(data) }
 func (s *SE) UnmarshalBinary(data []byte) error { return s.unmarshal(data) }
 func (s *SE) UnmarshalJSON(data []byte) error   { return s.unmarshal(data) }
 
+// c20Map and c20Slice: T of map kind and of slice kind (zero value nil, which is not the same as empty).
+type c20Map map[string]int
+type c20Slice []int
+
+func (m c20Map) MarshalText() ([]byte, error)   { return c20Marshal(m["id"], m["mbeh"]) }
+func (m c20Map) MarshalBinary() ([]byte, error) { return c20Marshal(m["id"], m["mbeh"]) }
+func (m c20Map) MarshalJSON() ([]byte, error)   { return c20Marshal(m["id"], m["mbeh"]) }
+func (m *c20Map) unmarshal(data []byte) error {
+	id, mb, set, err := c20Unmarshal(data)
+	if set {
+		*m = c20Map{"id": id, "mbeh": mb}
+	}
+	return err
+}
+func (m *c20Map) UnmarshalText(data []byte) error   { return m.unmarshal(data) }
+func (m *c20Map) UnmarshalBinary(data []byte) error { return m.unmarshal(data) }
+func (m *c20Map) UnmarshalJSON(data []byte) error   { return m.unmarshal(data) }
+
+func (l c20Slice) ids() (int, int) {
+	if len(l) < 2 {
+		return 0, 0
+	}
+	return l[0], l[1]
+}
+func (l c20Slice) MarshalText() ([]byte, error)   { return c20Marshal(l.ids()) }
+func (l c20Slice) MarshalBinary() ([]byte, error) { return c20Marshal(l.ids()) }
+func (l c20Slice) MarshalJSON() ([]byte, error)   { return c20Marshal(l.ids()) }
+func (l *c20Slice) unmarshal(data []byte) error {
+	id, mb, set, err := c20Unmarshal(data)
+	if set {
+		*l = c20Slice{id, mb}
+	}
+	return err
+}
+func (l *c20Slice) UnmarshalText(data []byte) error   { return l.unmarshal(data) }
+func (l *c20Slice) UnmarshalBinary(data []byte) error { return l.unmarshal(data) }
+func (l *c20Slice) UnmarshalJSON(data []byte) error   { return l.unmarshal(data) }
+
 // c20Iface: T itself is an interface type; one list then holds values of several implementing types
 // (SV by value, *SP by pointer). Only the marshal helpers are run with it (an unmarshal helper has no
 // way to make a new value of an interface type without a TypeHelper, which the statement leaves open).
@@ -241,10 +281,10 @@ func (s *BinaryOnly) UnmarshalBinary(data []byte) error {
 }
 
 // c20Implements: does scripted type typ implement the interface helper h needs?
-// types: 0 SV, 1 *SP, 2 NoIface, 3 TextOnly, 4 JSONOnly, 5 *BinaryOnly, 6 SE, 7 c20Iface (an interface type)
+// types: 0 SV, 1 *SP, 2 NoIface, 3 TextOnly, 4 JSONOnly, 5 *BinaryOnly, 6 SE, 7 c20Iface (an interface type), 8 c20Map (map kind), 9 c20Slice (slice kind)
 func c20Implements(typ, helper int) bool {
 	switch typ {
-	case 0, 1, 6:
+	case 0, 1, 6, 8, 9:
 		return true
 	case 7:
 		return helper%2 == 0
@@ -271,6 +311,8 @@ type c20Spec struct {
 	Before     int  // 0 nil, 1 pass, 2 returns error, 3 panics
 	After      int
 	NilValue   bool // T = *SP only: Value is a nil pointer (unmarshal-only cases)
+	ZeroValue  bool // unmarshal-only cases of non-pointer types: the expected Value is the zero value of T (a nil map, a nil slice, an all-zero struct)
+	Wildcard   bool // unmarshal-only cases run with the asymmetric TypeHelper: the expected Value's second field means "any"
 }
 
 func c20ErrFunc(s c20Spec) test.AssertErrorFunc {
@@ -400,7 +442,13 @@ func c20JudgeCase(s c20Spec, marshalDir bool) (applicable bool, j c20Judgement) 
 		rightResult = s.DataRight && s.ValueRight && s.UBeh == 0
 	} else {
 		panics, hasErr, hasResult = s.UBeh == 4 || s.UBeh == 6, s.UBeh == 2 || s.UBeh == 3 || s.UBeh == 5 || s.UBeh == 8, s.UBeh == 0 || s.UBeh == 1 || s.UBeh == 3 || s.UBeh == 7
-		rightResult = s.UBeh == 0 && s.ValueRight
+		rightResult = s.UBeh == 0 && s.ValueRight && !s.ZeroValue
+		if s.ZeroValue { // the expected value is the zero value: satisfied exactly by an unmarshaler that leaves the new receiver alone
+			rightResult = s.UBeh == 9
+		}
+		if s.Wildcard && !s.ZeroValue { // the asymmetric TypeHelper ignores the second field of the expected value
+			rightResult = (s.UBeh == 0 || s.UBeh == 7) && s.ValueRight
+		}
 	}
 	if s.ErrKind != 0 {
 		if panics {
@@ -469,7 +517,30 @@ func c20JudgeList(specs []c20Spec, marshalDir bool, lacksInterface bool) c20List
 
 // ---- drivers for the three case kinds and three scripted types
 
-type c20TypeHelper[T any] struct{ newValue func() T }
+type c20TypeHelper[T any] struct {
+	newValue func() T
+	wild     bool // AssertEqual is asymmetric: a second field of c20Any in the EXPECTED value matches anything
+}
+
+const c20Any = -7
+
+func c20Fields(v any) (id, mbeh int, ok bool) {
+	rv := reflect.ValueOf(v)
+	if rv.Kind() == reflect.Ptr {
+		if rv.IsNil() {
+			return 0, 0, false
+		}
+		rv = rv.Elem()
+	}
+	if rv.Kind() != reflect.Struct {
+		return 0, 0, false
+	}
+	f1, f2 := rv.FieldByName("ID"), rv.FieldByName("MBeh")
+	if !f1.IsValid() || !f2.IsValid() {
+		return 0, 0, false
+	}
+	return int(f1.Int()), int(f2.Int()), true
+}
 
 func (h c20TypeHelper[T]) New(T) T { return h.newValue() }
 func (h c20TypeHelper[T]) AssertEmpty(t test.TestingT, value T, failInfo string) {
@@ -485,6 +556,16 @@ func (h c20TypeHelper[T]) AssertEmpty(t test.TestingT, value T, failInfo string)
 	}
 }
 func (h c20TypeHelper[T]) AssertEqual(t test.TestingT, expected, actual T, failInfo string) {
+	if h.wild {
+		eid, emb, ok1 := c20Fields(expected)
+		aid, _, ok2 := c20Fields(actual)
+		if ok1 && ok2 && emb == c20Any {
+			if eid != aid {
+				t.Errorf("not equal: %v vs %v (%s)", expected, actual, failInfo)
+			}
+			return
+		}
+	}
 	if !reflect.DeepEqual(expected, actual) {
 		t.Errorf("not equal: %v vs %v (%s)", expected, actual, failInfo)
 	}
@@ -496,7 +577,19 @@ var c20HelperNames = []string{"MarshalText", "UnmarshalText", "MarshalBinary", "
 func c20Invoke[T any](t *c20T, helper int, withHelper bool, specs []c20Spec, mk func(c20Spec) T, newValue func() T) {
 	var th test.TypeHelper[T]
 	if withHelper {
-		th = c20TypeHelper[T]{newValue}
+		wild := false
+		for _, s := range specs {
+			wild = wild || s.Wildcard
+		}
+		th = c20TypeHelper[T]{newValue, wild}
+	}
+	mkInner := mk
+	mk = func(s c20Spec) T {
+		if s.ZeroValue && s.Constraint == 2 {
+			var z T
+			return z
+		}
+		return mkInner(s)
 	}
 	cons := func(s c20Spec) test.Constraint { return test.Constraint(s.Constraint) }
 	// initial / final content of a case whose Before hook rewrites it (kind 5: wrong -> right, kind 6: right -> wrong)
@@ -589,6 +682,9 @@ func c20RunList(w *rt.W, helper, typ int, withHelper bool, specs []c20Spec) c20L
 				if marshalDir || s.Constraint == 1 {
 					return SV{ID: c20MarID(s), MBeh: s.MBeh}
 				}
+				if s.Wildcard {
+					return SV{ID: c20ExpID(s), MBeh: c20Any}
+				}
 				return SV{ID: c20ExpID(s), MBeh: s.MBeh}
 			}, func() SV { return SV{} })
 		case 1:
@@ -599,6 +695,9 @@ func c20RunList(w *rt.W, helper, typ int, withHelper bool, specs []c20Spec) c20L
 				if marshalDir || s.Constraint == 1 {
 					return &SP{ID: c20MarID(s), MBeh: s.MBeh}
 				}
+				if s.Wildcard {
+					return &SP{ID: c20ExpID(s), MBeh: c20Any}
+				}
 				return &SP{ID: c20ExpID(s), MBeh: s.MBeh}
 			}, func() *SP { return &SP{} })
 		case 6:
@@ -608,6 +707,20 @@ func c20RunList(w *rt.W, helper, typ int, withHelper bool, specs []c20Spec) c20L
 				}
 				return SE{ID: c20ExpID(s), MBeh: s.MBeh}
 			}, func() SE { return SE{} })
+		case 8:
+			c20Invoke(t, helper, withHelper, specs, func(s c20Spec) c20Map {
+				if marshalDir || s.Constraint == 1 {
+					return c20Map{"id": c20MarID(s), "mbeh": s.MBeh}
+				}
+				return c20Map{"id": c20ExpID(s), "mbeh": s.MBeh}
+			}, func() c20Map { return nil })
+		case 9:
+			c20Invoke(t, helper, withHelper, specs, func(s c20Spec) c20Slice {
+				if marshalDir || s.Constraint == 1 {
+					return c20Slice{c20MarID(s), s.MBeh}
+				}
+				return c20Slice{c20ExpID(s), s.MBeh}
+			}, func() c20Slice { return nil })
 		case 7:
 			c20Invoke(t, helper, withHelper, specs, func(s c20Spec) c20Iface {
 				if s.ID%2 == 0 {
@@ -706,7 +819,7 @@ func c20GenSpec(r *rt.Rand, id int) c20Spec {
 	}
 	switch r.Intn(10) {
 	case 0:
-		s.UBeh = 1 + r.Intn(8)
+		s.UBeh = 1 + r.Intn(9)
 	case 1:
 		s.ValueRight = false
 	}
@@ -716,7 +829,7 @@ func c20GenSpec(r *rt.Rand, id int) c20Spec {
 		s.MBeh, s.UBeh = 1, 2
 	case 1: // expects an error with an arbitrary predicate and arbitrary behaviour
 		s.ErrKind = 1 + r.Intn(10)
-		s.MBeh, s.UBeh = r.Intn(7), r.Intn(9)
+		s.MBeh, s.UBeh = r.Intn(7), r.Intn(10)
 	case 2: // expects the plain text and gets an error that only wraps it
 		s.ErrKind = []int{2, 4, 6, 8, 1}[r.Intn(5)]
 		s.MBeh, s.UBeh = 4, 5
@@ -735,6 +848,12 @@ func c20GenSpec(r *rt.Rand, id int) c20Spec {
 	}
 	if s.Constraint == 2 && s.ErrKind != 0 && r.Bool() {
 		s.NilValue = true
+	}
+	if s.Constraint == 2 && r.Chance(1, 5) { // the zero value expected; most often from an unmarshaler that leaves the receiver alone
+		s.ZeroValue = true
+		if r.Chance(2, 3) && s.ErrKind == 0 {
+			s.UBeh = 9
+		}
 	}
 	return s
 }
@@ -767,13 +886,27 @@ func runC20(c *rt.Ctx) {
 			for k := range specs {
 				specs[k] = c20GenSpec(r, 1+r.Intn(900))
 			}
-			typ := []int{0, 0, 0, 1, 1, 2, 3, 4, 5, 6, 6, 7, 7}[r.Intn(13)]
+			typ := []int{0, 0, 0, 1, 1, 2, 3, 4, 5, 6, 6, 7, 7, 8, 8, 9}[r.Intn(16)]
 			if typ != 1 {
 				for k := range specs {
 					specs[k].NilValue = false
 				}
 			}
 			withHelper := r.Chance(1, 3)
+			for k := range specs {
+				if typ == 1 || typ == 5 || typ == 7 { // zero value of a pointer or interface type: what a helper makes of it is left open
+					specs[k].ZeroValue = false
+				}
+				if withHelper && (typ == 0 || typ == 1) && specs[k].Constraint == 2 && !specs[k].ZeroValue && !specs[k].NilValue && r.Chance(1, 3) {
+					specs[k].Wildcard = true
+				}
+				if specs[k].ZeroValue && specs[k].UBeh == 9 && (typ == 8 || typ == 9) {
+					w.ClassN("nil-map-or-slice-expected-and-left-alone", 1)
+				}
+				if specs[k].Wildcard {
+					w.ClassN("asymmetric-type-helper-case", 1)
+				}
+			}
 			for _, sp := range specs {
 				if typ == 6 && sp.UBeh == 7 && sp.Constraint != 1 && !withHelper {
 					w.ClassN("loosely-self-comparing-type-with-partial-difference", 1)
@@ -820,6 +953,8 @@ func runC20(c *rt.Ctx) {
 	c.Require("list-must-pass", 10000)
 	c.Require("case-by-case-runs", 10000)
 	c.Require("interface-typed-T", 1000)
+	c.Require("nil-map-or-slice-expected-and-left-alone", 200)
+	c.Require("asymmetric-type-helper-case", 200)
 	c.Require("loosely-self-comparing-type-with-partial-difference", 50)
 	c.Require("non-nil-error-holding-nil-pointer", 200)
 	for _, r := range []string{"before hook", "after hook", "missing error", "unmet error predicate", "non-empty result alongside an expected error", "unexpected error", "differing data or value", "type lacks the interface", "errormatch-valid-pattern-nonmatching-nonnil-error"} {
